@@ -4,8 +4,8 @@ NOTE_COMMON = ('Trusted: Coq 8.16.1 kernel (vm_compute used, no native_compute);
                'the correspondence check (generator-bounded differential testing of the OCaml-extracted model against the '
                'library built from /repo with -tags verif); coq/Grammar.v is regenerated from /repo/jsonpath.peg by '
                'tools/peg2coq.py on every run; extraction with ExtrOcamlBasic only; the Go runner, OCaml driver and Python harness.')
-EVAL_HYP = (' Theorem hypotheses: the tree is well-formed (wf_node, decidable; the driver evaluates it on every tree the parser '
-            'model builds and a failure is reported), arrays of the document and of user-function results are shorter than 2^62, '
+EVAL_HYP = (' Theorem hypotheses: the tree is well-formed (wf_node: proved for every tree the parser model returns, '
+            'C02_parsed_trees_well_formed; the driver also evaluates it on every parsed tree), arrays of the document and of user-function results are shorter than 2^62, '
             'user functions are pure total functions with an error result.')
 T_EVAL = 'Coq proof (mutual induction over the syntax tree of the evaluator model) + differential correspondence check'
 CLAIMS = {
@@ -13,7 +13,8 @@ CLAIMS = {
         'text': 'C01_refines_spec / C01_every_step / C01_filter_semantics (coq/Prop_C01.v, Refine1-2.v): for the FULL language the '
                 'evaluator model returns exactly what the independent step-by-step specification coq/Spec.v selects — values, '
                 'multiplicity, order, accessor wrapping — and fails exactly when the specification selects nothing; unbounded path '
-                'depth, filter nesting and document size. Partial in one respect: the text->tree link is not proved (parser model vs '
+                'depth, filter nesting and document size. C01_end_to_end: from the path TEXT — every tree Parse returns is well formed '
+                '(C02_parsed_trees_well_formed), so no hypothesis on the tree remains. Not a theorem: which AST a given text denotes (parser model vs '
                 'real parser by tree dumps and through the API). Correspondence: generated paths x documents; the extracted '
                 'specification runs next to the model on every case (a model/spec difference is reported).',
         'note': NOTE_COMMON + EVAL_HYP + ' The specification states the library conventions explicitly (whole-match $ operands, both-absent rule of path == path).',
@@ -46,7 +47,9 @@ CLAIMS = {
                 '(C02_peg_never_fails); no action reaches a crash site — pop on an empty parameter list, failed type assertion, '
                 'text[0:1] on an empty capture, no root at the end (C02_no_crash_site: a verified stack-effect checker, '
                 'coq/StackCheck.v, types every rule against a summary; the node chain, the save/restore of the parameter list and '
-                'the start rule are proved by hand in the same Hoare logic, coq/StackLogic.v, StackRules.v); the fuel 200+40|input| '
+                'the start rule are proved by hand in the same Hoare logic, coq/StackLogic.v, StackRules.v); the item types carry invariants, so '
+                'the same check proves C02_parsed_trees_well_formed: every tree Parse returns satisfies wf_node, the hypothesis of the '
+                'evaluator theorems; the fuel 200+40|input| '
                 'is never exhausted and no repetition spins without consuming (C02_fuel_suffices: rank argument, coq/Fuel.v); the '
                 'comparison builders do not recurse (C02_compare_builder_total; the pinned tree recursed for ever, D1). Not a '
                 'theorem: that the generated Go parser and the Go actions behave like the interpreter and Actions.v — decided by the '
